@@ -532,6 +532,7 @@ static void family_enumeration(Report& rep, const Config& cfg) {
   const std::string scen = "family_enumeration";
   if (!cfg.replay_scenario.empty() && cfg.replay_scenario != scen) return;
   const size_t N = cfg.quick() ? 20000 : 200000;
+  case_timeout_s() = 1800;   // one case is N updates + 3N queries; the per-case alarm is re-armed only every 64 cases
   struct Fc { double eps, delta; unsigned nh; uint32_t nb; bool suggested; };
   std::vector<Fc> fcs;
   const double vals[2] = {0.1, 0.05};
@@ -621,22 +622,15 @@ int main(int argc, char** argv) {
   { Task t; t.name = "family_enumeration"; t.fn = [&cfg](Report& rep) {
       family_enumeration(rep, cfg);
       rep.assumptions.push_back("confidence clause: decided only over the enumerated family (items 0..N-1 as integers and strings, uniform/zipf/heavy10 weights, suggested and direct configurations, 2-3 seeds) with a 5-sigma allowance; it is a family enumeration, not a universal statement about MurmurHash3");
-      rep.assumptions.push_back("item alphabet of the BFS: 6 integers, 3 strings (1, 3 and 25 bytes), the empty string, 2 operand-only and 2 never-inserted items; weights {0,1,3} (signed scenarios add {-1,-2}); num_hashes 1..3, num_buckets {3,4,5,8}, 2 seeds; larger shapes (up to 255 hashes, 100003 buckets) only in the hash-paths grid");
+      rep.assumptions.push_back("item alphabet of the BFS: 6 integers, 3 strings (1, 3 and 25 bytes), the empty string, 2 operand-only and 2 never-inserted items; weights {0,1,3} (signed scenarios add {-1,-2}); streams bounded by total weight (name suffix /W<n>); num_hashes 1..3, num_buckets {3,4,5,8}, 2 seeds; larger shapes (up to 255 hashes, 100003 buckets) only in the hash-paths grid");
       rep.assumptions.push_back("row seeds are read from the sketch (private field); their derivation from the seed is only checked to be deterministic and preserved by serialization");
       rep.assumptions.push_back("signed scenarios go beyond the statement's non-negative premise and check only cell linearity, total weight == sum|w|, lb<=est<=ub and merge linearity");
-      rep.sets("rule", "BFS over update/merge/refused-merge/round-trip on the product (sketch x exact counts x independent cell model x control sketch) to a depth bound per configuration; complete grids for overload hashing and for the confidence family. Distinct = distinct outcome tag (emptiness, over-estimation present, absent item positive, estimate at total, operation kind and refusal outcome).");
+      rep.sets("rule", "BFS over update/merge/refused-merge/round-trip on the product (sketch x exact counts x independent cell model x control sketch) to the fixpoint of the space of histories whose total weight sum|w| stays <= the stated bound (menu: 6 quick / 10 thorough; signed: 5/7; merge trees over three sketches: 6/8), no-op operations (weight 0, empty string, self merge, five kinds of incompatible merge in both directions, three serialize round trips followed by one update and one merge) probed in every state; complete grids for overload hashing and for the confidence family. Distinct = distinct outcome tag (emptiness, over-estimation present, absent item positive, estimate at total, operation kind and refusal outcome).");
     }; tasks.push_back(t); }
   { Task t; t.name = "hash-paths"; t.fn = [&cfg](Report& rep) { hash_paths_grid<uint64_t>(rep, cfg); hash_paths_grid<int64_t>(rep, cfg); hash_paths_grid<double>(rep, cfg); }; tasks.push_back(t); }
   const unsigned hs[] = {1, 2, 3}; const uint32_t bs[] = {3, 4, 5, 8}; const uint64_t seeds[] = {DEFAULT_SEED, 7};
   const unsigned dm = q ? 6 : 10;   // bound on the total stream weight of the menu systems (BFS runs to the fixpoint)
-  for (int hi = 0; hi < 3; ++hi) for (int bi = 0; bi < 4; ++bi) for (int si = 0; si < 2; ++si)
-    add_menu<uint64_t>(tasks, cfg, hs[hi], bs[bi], seeds[si], false, dm, 6, 3);
-  // other weight types: non-negative streams
-  for (int hi = 0; hi < 3; ++hi) for (int bi = 0; bi < 4; ++bi) {
-    if (q && !((hi == 1 && bi == 0) || (hi == 2 && bi == 2))) continue;
-    add_menu<double>(tasks, cfg, hs[hi], bs[bi], seeds[(hi + bi) & 1], false, dm, 6, 3);
-    add_menu<int64_t>(tasks, cfg, hs[hi], bs[bi], seeds[(hi + bi + 1) & 1], false, dm, 6, 3);
-  }
+  // (task order = start order: the small, diverse scenarios first, the large u64 menu systems last)
   // signed weights (int64_t, double)
   for (int hi = 0; hi < 3; ++hi) for (int bi = 0; bi < 4; ++bi) {
     if (q && !((hi == 1 && bi == 1) || (hi == 0 && bi == 0))) continue;
@@ -648,5 +642,13 @@ int main(int argc, char** argv) {
     if (q && !((hi == 1 && bi == 0) || (hi == 0 && bi == 1) || (hi == 2 && bi == 3))) continue;
     add_tree<uint64_t>(tasks, cfg, hs[hi], bs[bi], seeds[(hi + bi) & 1], q ? 6 : 8, true);
   }
+  // other weight types: non-negative streams
+  for (int hi = 0; hi < 3; ++hi) for (int bi = 0; bi < 4; ++bi) {
+    if (q && !((hi == 1 && bi == 0) || (hi == 2 && bi == 2))) continue;
+    add_menu<double>(tasks, cfg, hs[hi], bs[bi], seeds[(hi + bi) & 1], false, q ? dm : dm - 1, 6, 3);
+    add_menu<int64_t>(tasks, cfg, hs[hi], bs[bi], seeds[(hi + bi + 1) & 1], false, q ? dm : dm - 1, 6, 3);
+  }
+  for (int hi = 0; hi < 3; ++hi) for (int bi = 0; bi < 4; ++bi) for (int si = 0; si < 2; ++si)
+    add_menu<uint64_t>(tasks, cfg, hs[hi], bs[bi], seeds[si], false, dm, 6, 3);
   return run_tasks(cfg, "C14", tasks);
 }
